@@ -26,7 +26,11 @@ Trim(x) == IF Len(x) > 0 /\ x[Len(x)] = 0 THEN Trim(SubSeq(x, 1, Len(x) - 1)) EL
 \* the natural number denoted by column sums (trimmed digits)
 Nat256(cols) == Trim(NormAcc(cols, 1, 0, <<>>))
 
-Pad(x, n) == [i \in 1..n |-> IF i <= Len(x) THEN x[i] ELSE 0]
+Zeros32 == <<0,0,0,0,0,0,0,0,0,0,0,0,0,0,0,0,0,0,0,0,0,0,0,0,0,0,0,0,0,0,0,0>>
+Pad(x, n) == SubSeq(x \o Zeros32, 1, n)                  \* eager (a tuple, not a lazy function)
+\* force a function on 1..n into a tuple (TLC evaluates [i \in S |-> e] lazily, per access)
+RECURSIVE Tup(_, _)
+Tup(f, n) == IF n = 0 THEN <<>> ELSE Append(Tup(f, n - 1), f[n])
 At(x, i) == IF i >= 1 /\ i <= Len(x) THEN x[i] ELSE 0
 Max(a, b) == IF a > b THEN a ELSE b
 
